@@ -443,6 +443,9 @@ impl<C: ContentAddrStore> SealedState<C> {
         new.height += BlockHeight(1);
         new.stakes.unlock_old((new.height / STAKE_EPOCH).0);
         new.transactions = Default::default();
+        // tips belong to the block they were paid in: they are not part of the header or the block, so a state rebuilt
+        // with from_block has none, and every node must start the next block with the same (empty) tips
+        new.tips = CoinValue(0);
 
         // TIP-906 transition
         if new.tip_906() && !self.0.tip_906() {
